@@ -76,6 +76,8 @@ type Exec struct {
 	siteNames      map[*ssa.Function]map[token.Pos]string
 	curLoopHead    *ssa.BasicBlock
 	embCodes       map[string]int
+	given          map[string]Val
+	curFn          *ssa.Function
 	pdoms          map[*ssa.Function]*pdomInfo
 	noMerge        bool
 	merges         int
@@ -340,7 +342,11 @@ func (x *Exec) VerifyFunc(key string) (err error) {
 	if c == nil {
 		return fmt.Errorf("no contract for %s", key)
 	}
-	fn := x.lookupFunc(key)
+	fnKey := key
+	if i := strings.Index(key, "@"); i >= 0 {
+		fnKey = key[:i] // scenario contract: a second, specialised contract of the same function
+	}
+	fn := x.lookupFunc(fnKey)
 	if fn == nil {
 		return fmt.Errorf("cannot bind contract: function %s not found in /repo", key)
 	}
@@ -349,6 +355,7 @@ func (x *Exec) VerifyFunc(key string) (err error) {
 	}
 	x.curFunc = key
 	x.curContract = c
+	x.curFn = fn
 	if len(c.Sites) > 0 {
 		have := map[string]bool{}
 		for _, n := range x.callSites(fn) {
@@ -391,6 +398,15 @@ func (x *Exec) VerifyFunc(key string) (err error) {
 	st.frames = []*Frame{fr}
 	fr.block = fn.Blocks[0]
 	st.entry = st.snap()
+	x.given = map[string]Val{}
+	for _, g := range c.Given {
+		t := st.fresh("given_"+g.Name, g.Sort, nil)
+		if isBV(g.Sort) {
+			t.Typ = types.Typ[types.Uint64]
+		}
+		x.given[g.Name] = t
+		x.curInputs = append(x.curInputs, inputSym{Name: "given " + g.Name, Sym: t.S, Sort: g.Sort, Typ: "given"})
+	}
 	// assume requires
 	env := x.contractEnvAtEntry(st, fr, c)
 	for _, r := range c.Requires {
@@ -1433,6 +1449,9 @@ func (x *Exec) jump(st *State, fr *Frame, to *ssa.BasicBlock) []*State {
 func (x *Exec) loopContract(fr *Frame) *Contract {
 	if len(fr.fn.Blocks) == 0 {
 		return nil
+	}
+	if fr.depth == 0 && x.curContract != nil && fr.fn == x.curFn {
+		return x.curContract // also for scenario contracts of the function under verification
 	}
 	key := funcKey(fr.fn, x.pkg.Pkg)
 	return x.specs.Contracts[key]
